@@ -49,7 +49,10 @@ BASELINE = [
 
 def match(item):
     import fnmatch
-    k = (item["kind"], item["fn"], item["root"], item["src"], item["op"])
+    # taking the next element off a queue is one kind of write, whichever end the queue is read from (list.pop of a reversed list,
+    # deque.popleft of a list in text order)
+    same_op = {"call:.popleft": "call:.pop"}
+    k = (item["kind"], item["fn"], item["root"], item["src"], same_op.get(item["op"], item["op"]))
     for b in BASELINE:
         if b[0] == k[0] and fnmatch.fnmatchcase(k[1], b[1]) and fnmatch.fnmatchcase(k[2], b[2]) and b[4] == k[4] \
                 and (b[3] == k[3] or (b[3] == b[1] and k[0] == "E-param" and "*" not in b[1])):
